@@ -1,5 +1,5 @@
 #!/bin/sh
-# usage: seedtest.sh <patch> <prop>...   : apply patch to /repo, run checks, undo
+# usage: seedtest.sh <patch> <prop>...   : apply patch to /repo, run checks, undo, then re-run the checks on the clean tree (evidence is rewritten by every run)
 P=$1; shift
 git -C /repo apply "$P" || exit 3
 for c in "$@"; do
@@ -7,3 +7,4 @@ for c in "$@"; do
   echo "== $c exit=$rc"; echo "$out" | grep -E '^(VIOLATION|UNDECIDED|OK|KNOWN)' | head -5
 done
 git -C /repo checkout -- .
+for c in "$@"; do (cd /verif && ./check $c >/dev/null 2>&1) || echo "!! $c does not pass on the clean tree"; done
